@@ -117,7 +117,7 @@ class SolverWorld(World):
 
     def solve(self, i, op):
         from desolver.utilities import optimizer as OPT
-        dtype = np.dtype({"float32": np.float32, "float64": np.float64, "longdouble": np.longdouble}[op["dtype"]])
+        dtype = np.dtype({"float32": np.float32, "float64": np.float64, "longdouble": np.longdouble, "int64": np.float64}[op["dtype"]])
         Fm, Jm = system_F(op["system"], dtype)
         if op.get("f_dtype"):
             # a residual function that works in (and returns) a narrower precision than the initial guess it is handed: THAT function is the
@@ -148,6 +148,8 @@ class SolverWorld(World):
             w.peer_call("J")
             return Jm(x)
         x0 = np.asarray(op["x0"], dtype=np.float64).astype(dtype).reshape(tuple(op["system"]["shape"]))
+        if op["dtype"] == "int64":
+            x0 = np.round(x0).astype(np.int64)        # an integer-typed initial guess (np.array([1, 1])): the root is not an integer
         tol = op.get("tol")
         rec = {"op": i, "entry": op["entry"], "x0": _c(x0), "tol": tol, "exc": None, "success": None, "x": None, "dtype": op["dtype"]}
         jac = J if op.get("user_jac") else None
@@ -238,6 +240,9 @@ class C15(Prop):
             tol = r.choice([None, 1e-6, 1e-9, 1e-12])
             ops.append({"system": desc, "x0": x0, "dtype": dtype, "entry": entry, "tol": tol, "user_jac": bool(r.random() < 0.6),
                         "maxiter": r.choice([200, 200, 50, 10])})
+            ri_ = gen.sub(seed, "intguess%d" % j)
+            if ri_.random() < 0.08 and kind in ("quad", "fixedpoint", "exp") and start in ("good", "zero"):
+                ops[-1].update({"dtype": "int64", "entry": ri_.choice(["newtontrustregion", "hybrj", "nonlinear_roots"]), "tol": ri_.choice([1e-6, 1e-9])})
             rn_ = gen.sub(seed, "narrow%d" % j)
             if rn_.random() < 0.12 and kind in ("quad", "fixedpoint", "exp"):
                 ops[-1].update({"dtype": "float64", "f_dtype": "float32", "tol": rn_.choice([1e-9, 1e-9, 1e-12]),
@@ -291,7 +296,7 @@ class C15(Prop):
                     bad("shape_preserved", "%s returned shape %r for an initial guess of shape %r" % (rec["entry"], np.shape(rec["x"]), np.shape(rec["x0"])), rec["op"])
                 if rec["success"]:
                     res["probes"]["claimed_success"] = res["probes"].get("claimed_success", 0) + 1
-                    dtype = np.dtype({"float64": np.float64, "longdouble": np.longdouble}[rec["dtype"]])
+                    dtype = np.dtype({"float64": np.float64, "longdouble": np.longdouble, "int64": np.float64}[rec["dtype"]])
                     tol = rec["tol"] if rec["tol"] is not None else 32 * eps_of(dtype)
                     n = int(np.prod(np.shape(rec["x0"])))
                     bound = K * tol * (n + float(np.linalg.norm(np.asarray(rec["x"], dtype=np.float64))))
